@@ -99,13 +99,13 @@ func c38Delete(s *orcStep, res *run.Result) {
 }
 
 func c38Noop(s *orcStep, res *run.Result, pre, post *orcSnap, what string) {
-	res.Inc("judged_delete_missing_target")
+	orcJudged(s, res, "delete_missing_target")
 	diffs, _ := orcUnchanged(pre, post, orcSame{})
 	if len(post.Objs) != len(pre.Objs) || len(post.Edges) != len(pre.Edges) {
 		diffs = append(diffs, fmt.Sprintf("element counts changed: objects %d -> %d, connections %d -> %d", len(pre.Objs), len(post.Objs), len(pre.Edges), len(post.Edges)))
 	}
 	if len(diffs) > 0 {
-		orcViol(res, "C38.noop-changed-something", "C38.noop-changed-something:"+what+":"+orcWhere(s),
+		orcViol(res, "C38.noop-changed-something", orcSig(s, "C38", "noop-changed-something", what),
 			fmt.Sprintf("Delete of a key that addresses nothing changed the board:\n%s\n%s", orcJoinDiffs(diffs), s.describe()))
 	}
 }
@@ -129,7 +129,7 @@ func c38Object(s *orcStep, res *run.Result, k orcKey, pre, post *orcSnap, strict
 	if !strict {
 		mode = "lenient"
 	}
-	res.Inc("judged_delete_object_" + mode)
+	orcJudged(s, res, "delete_object_"+mode)
 	to := pre.Objs[t]
 	kids := pre.children(t)
 	cls := pre.decl(t)
@@ -138,7 +138,7 @@ func c38Object(s *orcStep, res *run.Result, k orcKey, pre, post *orcSnap, strict
 			cls = "child-named-like-target"
 		}
 	}
-	trig := mode + ":" + cls + ":" + orcWhere(s)
+	_ = cls
 	reported := false
 	viol := func(clause, msg string) {
 		if reported {
@@ -146,7 +146,7 @@ func c38Object(s *orcStep, res *run.Result, k orcKey, pre, post *orcSnap, strict
 			return
 		}
 		reported = true
-		orcViol(res, "C38."+clause, "C38."+clause+":"+trig, msg+"\n"+s.describe())
+		orcViol(res, "C38."+clause, orcSig(s, "C38", clause, mode), msg+"\n"+s.describe())
 	}
 	inSub := func(i int) bool { return i == t || pre.isDesc(i, t) }
 
@@ -154,7 +154,6 @@ func c38Object(s *orcStep, res *run.Result, k orcKey, pre, post *orcSnap, strict
 	if to.Tag != "" {
 		if j, still := post.objByTag[to.Tag]; still {
 			if to.Parent >= 0 && post.Objs[j].PathKey == pre.Objs[to.Parent].PathKey {
-				trig = "nested-object-with-flat-attribute-keys"
 				viol("attributes-landed-on-parent", fmt.Sprintf("the deleted object %s (%s) is gone but its label now sits on its former parent %s: statements that set attributes of the deleted object were re-addressed to the parent", to.Tag, to.AbsID, post.Objs[j].AbsID))
 			} else {
 				viol("target-survived", fmt.Sprintf("deleted object %s (%s) still exists as %s", to.Tag, to.AbsID, post.Objs[j].AbsID))
@@ -345,7 +344,7 @@ func c38Edge(s *orcStep, res *run.Result, k orcKey, pre, post *orcSnap) {
 		c38Noop(s, res, pre, post, "connection")
 		return
 	}
-	res.Inc("judged_delete_connection")
+	orcJudged(s, res, "delete_connection")
 	te := pre.Edges[t]
 	cls := "simple"
 	if pre.Objs[te.Src].Foreign || pre.Objs[te.Dst].Foreign {
@@ -353,7 +352,7 @@ func c38Edge(s *orcStep, res *run.Result, k orcKey, pre, post *orcSnap) {
 	} else if pre.Objs[te.Src].RefChain && pre.Objs[te.Dst].RefChain {
 		cls = "maybe-in-chain"
 	}
-	trig := cls + ":" + orcWhere(s)
+	_ = cls
 	reported := false
 	viol := func(clause, msg string) {
 		if reported {
@@ -361,7 +360,7 @@ func c38Edge(s *orcStep, res *run.Result, k orcKey, pre, post *orcSnap) {
 			return
 		}
 		reported = true
-		orcViol(res, "C38."+clause, "C38."+clause+":connection:"+trig, msg+"\n"+s.describe())
+		orcViol(res, "C38."+clause, orcSig(s, "C38", clause, "connection"), msg+"\n"+s.describe())
 	}
 	if te.Tag != "" {
 		if _, still := post.edgeByTag[te.Tag]; still {
@@ -441,19 +440,13 @@ func c38ObjAttr(s *orcStep, res *run.Result, k orcKey, pre, post *orcSnap) {
 	}
 	j := post.findObj(k.Obj)
 	viol := func(clause, msg string) {
-		trig := c38Quoted(pre, t) + pre.decl(t) + ":" + orcWhere(s)
-		if clause == "attribute-not-reset" && (kind == "label" || kind == "shape") {
-			trig = "delete-of-this-attribute-is-a-silent-no-op"
-		} else if clause == "attribute-not-reset" && c38Quoted(pre, t) != "" {
-			trig = "object-id-needs-quoting"
-		}
-		orcViol(res, "C38."+clause, "C38."+clause+":object."+kind+":"+trig, msg+"\n"+s.describe())
+		orcViol(res, "C38."+clause, orcSig(s, "C38", clause, "object."+kind), msg+"\n"+s.describe())
 	}
 	if j < 0 {
 		viol("attribute-delete-removed-object", fmt.Sprintf("deleting attribute %s removed object %s", strings.Join(k.Attr, "."), pre.Objs[t].AbsID))
 		return
 	}
-	res.Inc("judged_delete_object_attribute")
+	orcJudged(s, res, "delete_object_attribute")
 	po, qo := pre.Objs[t], post.Objs[j]
 	// was it set?
 	wasSet := false
@@ -543,18 +536,14 @@ func c38EdgeAttr(s *orcStep, res *run.Result, k orcKey, pre, post *orcSnap) {
 		}
 	}
 	viol := func(clause, msg string) {
-		trig := c38EdgeDecl(pre, t) + ":" + orcWhere(s)
-		if clause == "attribute-not-reset" && kind == "label" {
-			trig = "delete-of-this-attribute-is-a-silent-no-op"
-		}
-		orcViol(res, "C38."+clause, "C38."+clause+":connection."+kind+":"+trig, msg+"\n"+s.describe())
+		orcViol(res, "C38."+clause, orcSig(s, "C38", clause, "connection."+kind), msg+"\n"+s.describe())
 	}
 	j := post.findEdge(k)
 	if j < 0 {
 		viol("attribute-delete-removed-connection", fmt.Sprintf("deleting attribute %s removed connection %s", kind, pre.Edges[t].AbsID))
 		return
 	}
-	res.Inc("judged_delete_connection_attribute")
+	orcJudged(s, res, "delete_connection_attribute")
 	pe, qe := pre.Edges[t], post.Edges[j]
 	headOf := func(e orcEdge) map[string]any {
 		if head == "source-arrowhead" {
